@@ -120,9 +120,15 @@ def _same(a, b, bound):
 def compare(calls, ref, other, what):
     nb = 0
     for (key, fn, args, outs), r, o in zip(calls, ref, other):
-        if r[0] != "ok":
-            raise RuntimeError("reference call %s.%s failed: %s" % (key, fn, r[1]))
         tag = "%s.%s" % (kernels.MODULES[key].split(".")[-1], fn)
+        if r[0] != "ok":
+            # every call of the catalogue is valid and returns on the pinned tree, so the interpreted source under test
+            # has changed.  Both sides failing alike is agreement (C07..C13 decide what the kernels should compute); the
+            # accelerated side returning where the interpreted one fails is a divergence
+            if o[0] == "ok":
+                raise Violation("C19:%s:reference-fails:%s" % (what, fn), "%s: %s returns normally, the interpreted module fails: %s"
+                                % (what, tag, r[1]))
+            continue
         if o[0] == "missing-function":
             continue          # function sets are compared by the "exports" sub-check
         if o[0] == "missing-module":
